@@ -14,6 +14,10 @@
 //!     variation store, at two locations;
 //!  H. degenerate gradient geometry and colour lines (coincident points, zero radii, 0/360 degree
 //!     sweeps, empty/single/unordered/duplicate/out-of-range stops) x extend modes x 4 wrappers;
+//!  J. PaintGlyph -> chain of 1..=2 (quick) / 3 (thorough) transform paints of every kind with identity
+//!     parameters and with pairs whose product is exactly the identity -> fill / layers / colr glyph;
+//!  K. every colour glyph of every bundled COLR font, unmodified, with and without the provided
+//!     default `fill_glyph` (the real one: `RecDefault` does not override it);
 //!  I. fonts where glyph 1 has both a COLR v0 record and a v1 paint, painted via get(), v1 and v0;
 //!  C. COLR v0 base glyph / layer records incl. out-of-range ranges;
 //!  D. chains of depth 63, 64, 65 and 1000 for every unary kind, both composite operands, layer chains
@@ -75,7 +79,8 @@ enum Ev {
 struct Rec {
     events: Vec<Ev>,
     cache_ok: bool,
-    /// true: keep the trait's default `fill_glyph` (which decomposes into clip/transform/fill/pop)
+    /// true: painted through `RecDefault`, i.e. the trait's provided `fill_glyph` runs
+    #[allow(dead_code)]
     decompose: bool,
     /// the painter aborts the traversal (by unwinding) once more callbacks than this have arrived, so
     /// that a traversal that blows up cannot hang the check
@@ -122,20 +127,8 @@ impl ColorPainter for Rec {
         self.ev(Ev::Fill(brush_kind(&b)))
     }
     fn fill_glyph(&mut self, glyph_id: GlyphId, brush_transform: Option<Transform>, brush: Brush<'_>) {
-        if self.decompose {
-            // verbatim copy of the trait's default body
-            self.push_clip_glyph(glyph_id);
-            if let Some(wrap_in_transform) = brush_transform {
-                self.push_transform(wrap_in_transform);
-                self.fill(brush);
-                self.pop_transform();
-            } else {
-                self.fill(brush);
-            }
-            self.pop_clip();
-        } else {
-            self.ev(Ev::FillGlyph(glyph_id.to_u32(), brush_transform.is_some(), brush_kind(&brush)));
-        }
+        // the overriding client: one atomic callback
+        self.ev(Ev::FillGlyph(glyph_id.to_u32(), brush_transform.is_some(), brush_kind(&brush)));
     }
     fn paint_cached_color_glyph(&mut self, g: GlyphId) -> Result<PaintCachedColorGlyph, PaintError> {
         self.ev(Ev::Cached(g.to_u32()));
@@ -146,6 +139,39 @@ impl ColorPainter for Rec {
     }
     fn pop_layer(&mut self) {
         self.ev(Ev::PopLayer)
+    }
+}
+
+/// A client that does NOT override `fill_glyph`: the trait's own provided default runs (the real one,
+/// not a copy), decomposing into push_clip_glyph / push_transform / fill / pop_transform / pop_clip.
+struct RecDefault(Rec);
+impl ColorPainter for RecDefault {
+    fn push_transform(&mut self, t: Transform) {
+        self.0.push_transform(t)
+    }
+    fn pop_transform(&mut self) {
+        self.0.pop_transform()
+    }
+    fn push_clip_glyph(&mut self, g: GlyphId) {
+        self.0.push_clip_glyph(g)
+    }
+    fn push_clip_box(&mut self, b: read_fonts::types::BoundingBox<f32>) {
+        self.0.push_clip_box(b)
+    }
+    fn pop_clip(&mut self) {
+        self.0.pop_clip()
+    }
+    fn fill(&mut self, b: Brush<'_>) {
+        self.0.fill(b)
+    }
+    fn paint_cached_color_glyph(&mut self, g: GlyphId) -> Result<PaintCachedColorGlyph, PaintError> {
+        self.0.paint_cached_color_glyph(g)
+    }
+    fn push_layer(&mut self, m: CompositeMode) {
+        self.0.push_layer(m)
+    }
+    fn pop_layer(&mut self) {
+        self.0.pop_layer()
     }
 }
 
@@ -196,9 +222,16 @@ fn paint(font_bytes: &[u8], gid: u32, format: Option<ColorGlyphFormat>, coords: 
             Some(f) => glyphs.get_with_format(GlyphId::new(gid), f),
             None => glyphs.get(GlyphId::new(gid)),
         };
-        let mut rec = Rec { events: vec![], cache_ok, decompose, limit };
-        let result = cg.map(|cg| cg.paint(LocationRef::new(&coords), &mut rec).map_err(|e| format!("{e:?}")));
-        Painted { result, events: rec.events }
+        let rec = Rec { events: vec![], cache_ok, decompose, limit };
+        if decompose {
+            let mut rec = RecDefault(rec);
+            let result = cg.map(|cg| cg.paint(LocationRef::new(&coords), &mut rec).map_err(|e| format!("{e:?}")));
+            Painted { result, events: rec.0.events }
+        } else {
+            let mut rec = rec;
+            let result = cg.map(|cg| cg.paint(LocationRef::new(&coords), &mut rec).map_err(|e| format!("{e:?}")));
+            Painted { result, events: rec.events }
+        }
     })
 }
 
@@ -408,7 +441,7 @@ fn structural_alphabet() -> Alphabet {
             leaves.push(Node::ColrLayers(first, count));
         }
     }
-    Alphabet { leaves, unaries: vec![Un::Translate, Un::Glyph] }
+    Alphabet { leaves, unaries: vec![Un::Translate, Un::Glyph], xfs: vec![] }
 }
 
 /// all size tuples (each >= 1) of length k with sum <= n
@@ -1053,12 +1086,14 @@ fn body(run: &Run, replay: Option<&Value>) {
     let ng = run.tier.pick(3usize, 4usize);
     let mut full_leaves: Vec<Node> = FILLS.iter().map(|f| Node::Fill(*f)).collect();
     full_leaves.extend(al.leaves.iter().filter(|l| !matches!(l, Node::Fill(_))).cloned());
-    let full = Alphabet { leaves: full_leaves, unaries: UNARIES.to_vec() };
+    // every transform kind also with identity parameters (translate 0, scale 1, rotate 0, skew 0, identity matrix)
+    let identity_xfs: Vec<(Un, u8)> = UNARIES.iter().filter(|u| **u != Un::Glyph).map(|u| (*u, 0u8)).collect();
+    let full = Alphabet { leaves: full_leaves, unaries: UNARIES.to_vec(), xfs: identity_xfs };
     let full_trees = trees_up_to(&full, ng);
     let coords_var: Vec<Vec<f32>> = vec![vec![], vec![0.5]];
     run.bound(
         "G.multi_kind_products",
-        json!({"max_total_nodes": ng, "leaves": full.leaves.len(), "unary_kinds": full.unaries.len(), "binary": ["Composite"], "trees_by_size": full_trees.iter().map(|t| t.len()).collect::<Vec<_>>(),
+        json!({"max_total_nodes": ng, "leaves": full.leaves.len(), "unary_kinds": full.unaries.len(), "identity_parameter_transform_kinds": full.xfs.len(), "binary": ["Composite"], "trees_by_size": full_trees.iter().map(|t| t.len()).collect::<Vec<_>>(),
                "locations_for_graphs_with_variable_paints": [[], [0.5]], "clip_list": [false, true]}),
     );
     let graphs_g = for_each_forest(&full_trees, ng, &|g, acc| {
@@ -1072,6 +1107,14 @@ fn body(run: &Run, replay: Option<&Value>) {
     }, run, "G");
     run.count("G.graphs", graphs_g);
     eprintln!("[c13] G done at {:.1}s: {} graphs", run.elapsed(), graphs_g);
+
+    // J: PaintGlyph over transform chains with identity / cancelling parameters
+    family_glyph_transform_chains(run);
+    eprintln!("[c13] J done at {:.1}s", run.elapsed());
+
+    // K: the bundled COLR fonts, unmodified
+    family_corpus_baseline(run);
+    eprintln!("[c13] K done at {:.1}s", run.elapsed());
 
     // H: degenerate gradient geometry and colour lines ("returns and is balanced" only)
     family_gradients(run);
@@ -1123,6 +1166,133 @@ fn body(run: &Run, replay: Option<&Value>) {
     eprintln!("[c13] F done at {:.1}s", run.elapsed());
 }
 
+
+
+/// J: PaintGlyph -> chain of 1..=k transform paints -> fill, every transform kind (variable ones too)
+/// with identity parameters, and with a pair of parameter sets whose product is exactly the identity.
+/// This is where the brush transform handed to `fill_glyph` can be the identity.
+fn family_glyph_transform_chains(run: &Run) {
+    let k = run.tier.pick(2usize, 3usize);
+    let kinds: Vec<Un> = UNARIES.iter().copied().filter(|u| *u != Un::Glyph).collect();
+    let mut xfs: Vec<(Un, u8)> = vec![];
+    for u in &kinds {
+        for p in 0..3u8 {
+            xfs.push((*u, p));
+        }
+    }
+    let n = xfs.len();
+    // leaf shapes: (leaf node, extra base glyph 2, layers)
+    let leaves: Vec<(Node, Option<Node>, Vec<Node>)> = vec![
+        (Node::Fill(Fill::Solid), None, vec![]),
+        (Node::Fill(Fill::Linear), None, vec![]),
+        (Node::ColrLayers(0, 1), None, vec![Node::Fill(Fill::Solid)]),
+        (Node::ColrGlyph(2), Some(Node::Fill(Fill::Solid)), vec![]),
+    ];
+    run.bound(
+        "J.glyph_transform_chains",
+        json!({"max_chain_length": k, "transform_kinds": kinds.len(), "parameter_sets": ["identity", "A", "B (A*B = identity for translate/matrix/scale kinds)"],
+               "leaves": ["Solid", "LinearGradient", "ColrLayers[Solid]", "ColrGlyph -> Solid"], "locations_for_variable_kinds": [[], [0.5]]}),
+    );
+    let coords0: Vec<Vec<f32>> = vec![vec![]];
+    let coords_var: Vec<Vec<f32>> = vec![vec![], vec![0.5]];
+    let total = AtomicU64::new(0);
+    let identity_fills = AtomicU64::new(0);
+    for len in 1..=k {
+        let count = (n as u64).pow(len as u32);
+        (0..n).into_par_iter().for_each(|first| {
+            let mut acc = Acc::new();
+            let rest = (n as u64).pow(len as u32 - 1);
+            let mut idx = vec![first; len];
+            let mut graphs = 0u64;
+            for c in 0..rest {
+                let mut x = c;
+                for i in (1..len).rev() {
+                    idx[i] = (x % n as u64) as usize;
+                    x /= n as u64;
+                }
+                for (leaf, base2, layers) in &leaves {
+                    let mut node = leaf.clone();
+                    for i in idx.iter().rev() {
+                        node = Node::Xf(xfs[*i].0, xfs[*i].1, Box::new(node));
+                    }
+                    let root = Node::Unary(Un::Glyph, Box::new(node));
+                    let mut bases = vec![root];
+                    if let Some(b2) = base2 {
+                        bases.push(b2.clone());
+                    }
+                    let mut g = Graph { bases, layers: layers.clone(), clip: false, var_store: false, v0: None };
+                    graphs += 1;
+                    let before = acc.ok;
+                    if uses_var(&g.bases[0]) {
+                        g.var_store = true;
+                        judge_all_modes(run, &g, &coords_var, &mut acc);
+                        g.var_store = false;
+                    }
+                    judge_all_modes(run, &g, &coords0, &mut acc);
+                    if acc.ok > before && idx.iter().all(|i| xfs[*i].1 == 0) {
+                        identity_fills.fetch_add(1, Ordering::Relaxed);
+                    }
+                }
+            }
+            total.fetch_add(graphs, Ordering::Relaxed);
+            flush(run, acc, "J");
+        });
+        let _ = count;
+    }
+    run.count("J.graphs", total.load(Ordering::Relaxed));
+    run.count("J.graphs_with_all_identity_transforms_painted_ok", identity_fills.load(Ordering::Relaxed));
+}
+
+/// K: every colour glyph of every bundled font with a COLR table, unmodified, painted with and
+/// without the provided default `fill_glyph`, both cache answers: returns, and Ok => balanced.
+fn family_corpus_baseline(run: &Run) {
+    let fonts: Vec<(String, Vec<u8>)> = corpus_fonts().into_iter().filter(|(_, b)| colr_range(b).is_some()).collect();
+    run.bound("K.corpus_baseline", json!({"fonts": fonts.iter().map(|f| f.0.clone()).collect::<Vec<_>>(), "glyphs": "every glyph id with a colour glyph", "callback_cap": 2_000_000}));
+    let glyphs = AtomicU64::new(0);
+    fonts.par_iter().for_each(|(rel, bytes)| {
+        let mut acc = Acc::new();
+        let Ok(font) = FontRef::new(bytes) else { return };
+        let n = read_fonts::TableProvider::maxp(&font).map(|m| m.num_glyphs()).unwrap_or(0) as u32;
+        let cg = font.color_glyphs();
+        let gids: Vec<u32> = (0..n).filter(|g| cg.get(GlyphId::new(*g)).is_some()).collect();
+        glyphs.fetch_add(gids.len() as u64, Ordering::Relaxed);
+        for gid in gids {
+            for cache_ok in [false, true] {
+                for decompose in [true, false] {
+                    acc.runs += 1;
+                    let case = json!({"kind":"corpus","font":rel,"gid":gid,"cache_ok":cache_ok,"decompose_fill_glyph":decompose});
+                    match paint(bytes, gid, None, &[], cache_ok, decompose, 2_000_000) {
+                        Ok(p) => {
+                            run.trans(p.events.len() as u64 + 1);
+                            acc.max_events = acc.max_events.max(p.events.len() as u64);
+                            match &p.result {
+                                Some(Ok(())) => {
+                                    acc.ok += 1;
+                                    if let Err(why) = dyck(&p.events) {
+                                        run.violation(&format!("ColorGlyph::paint Ok with unbalanced callbacks: {why}"), &format!("{rel} glyph {gid} cache_ok={cache_ok} default fill_glyph={decompose}: {:?}", &p.events[..p.events.len().min(40)]), case.clone());
+                                    }
+                                }
+                                Some(Err(_)) => acc.err += 1,
+                                None => {}
+                            }
+                            let d = digest_of(&(rel, gid, cache_ok, decompose, p.result.as_ref().map(|r| r.is_ok()), &p.events));
+                            acc.all.insert(d);
+                            if dyck(&p.events).map(|n| n > 0).unwrap_or(false) {
+                                acc.nontrivial.insert(d);
+                            }
+                        }
+                        Err(pi) if pi.message == LIMIT_MSG => {
+                            run.count("K.stopped_at_callback_cap", 1);
+                        }
+                        Err(pi) => run.violation(&format!("ColorGlyph::paint panic: {} in {}", pi.kind(), pi.site()), &format!("{rel} glyph {gid}: {}", pi.message), case),
+                    }
+                }
+            }
+        }
+        flush(run, acc, "K");
+    });
+    run.count("K.colour_glyphs", glyphs.load(Ordering::Relaxed));
+}
 
 fn family_gradients(run: &Run) {
     let stops = grad_stop_lists().len() as u8;
@@ -1295,6 +1465,20 @@ fn replay_case(run: &Run, case: &Value) {
             println!("replay: {o}");
         }
         "glyph_chain_timing" => glyph_chain_timing(run),
+        "corpus" => {
+            let rel = case["font"].as_str().unwrap_or("");
+            let gid = case["gid"].as_u64().unwrap_or(0) as u32;
+            let bytes = std::fs::read(repo_root().join(rel)).expect("corpus font");
+            match paint(&bytes, gid, None, &[], case["cache_ok"].as_bool().unwrap_or(false), case["decompose_fill_glyph"].as_bool().unwrap_or(true), 2_000_000) {
+                Ok(p) => {
+                    println!("replay: result {:?}, {} callbacks, balanced: {:?}", p.result, p.events.len(), dyck(&p.events));
+                    if let (Some(Ok(())), Err(why)) = (&p.result, dyck(&p.events)) {
+                        run.violation(&format!("ColorGlyph::paint Ok with unbalanced callbacks: {why}"), &format!("{rel} glyph {gid}"), case.clone());
+                    }
+                }
+                Err(pi) => run.violation(&format!("ColorGlyph::paint panic: {} in {}", pi.kind(), pi.site()), &pi.message, case.clone()),
+            }
+        }
         "mixed" => println!("replay: re-run the tier for the mixed v0+v1 family (graph: {})", case["graph"]),
         "dev" => {
             let rel = case["font"].as_str().unwrap_or("").to_string();
